@@ -8,17 +8,23 @@ import Deltio.Lemmas.SysInv
 -/
 namespace Deltio
 
-def SubsOk (sys : Sys) : Prop := ∀ e ∈ sys.subs, SubInv e.st ∧ e.st.deleted = false
+/-- A predicate on actor states that holds initially and that every non-deleting turn preserves. -/
+structure TurnStable (P : SubState → Prop) : Prop where
+  init : ∀ dl, P (SubState.init dl)
+  step : ∀ s t, P s → t ≠ .deleteBegin → t ≠ .deleteEnd → P (s.turn t).1
 
-theorem turn_ok {s : SubState} (h : SubInv s ∧ s.deleted = false) (t : SubTurn) (ht : t ≠ .deleteBegin) :
-    SubInv (s.turn t).1 ∧ (s.turn t).1.deleted = false :=
-  ⟨SubInv_turn h.1 t, by rw [turn_deleted t ht]; exact h.2⟩
+def SubsAll (P : SubState → Prop) (sys : Sys) : Prop := ∀ e ∈ sys.subs, P e.st
 
 theorem findSubById_mem {sys : Sys} {sid : Nat} {e : SubEnt} (h : sys.findSubById sid = some e) : e ∈ sys.subs :=
   List.mem_of_find?_eq_some h
 
-theorem SubsOk_setSubState {sys : Sys} (h : SubsOk sys) (sid : Nat) (st : SubState) (hst : SubInv st ∧ st.deleted = false) :
-    SubsOk (sys.setSubState sid st) := by
+section
+variable {P : SubState → Prop} (hP : TurnStable P)
+include hP
+
+omit hP in
+theorem SubsAll_setSubState {sys : Sys} (h : SubsAll P sys) (sid : Nat) (st : SubState) (hst : P st) :
+    SubsAll P (sys.setSubState sid st) := by
   intro e he
   unfold Sys.setSubState at he
   simp only [List.mem_map] at he
@@ -27,25 +33,27 @@ theorem SubsOk_setSubState {sys : Sys} (h : SubsOk sys) (sid : Nat) (st : SubSta
   · exact hst
   · exact h x hx
 
-theorem SubsOk_streams {sys : Sys} (h : SubsOk sys) (f : List Stream) : SubsOk { sys with streams := f } := h
-theorem SubsOk_clock {sys : Sys} (h : SubsOk sys) (c : Nat) : SubsOk { sys with clock := c } := h
+omit hP in
+theorem SubsAll_streams {sys : Sys} (h : SubsAll P sys) (f : List Stream) : SubsAll P { sys with streams := f } := h
+omit hP in
+theorem SubsAll_clock {sys : Sys} (h : SubsAll P sys) (c : Nat) : SubsAll P { sys with clock := c } := h
 
-theorem SubsOk_subTurn {sys : Sys} (h : SubsOk sys) (sid : Nat) (t : SubTurn) (ht : t ≠ .deleteBegin) :
-    SubsOk (sys.subTurn sid t).1 := by
+theorem SubsAll_subTurn {sys : Sys} (h : SubsAll P sys) (sid : Nat) (t : SubTurn) (ht : t ≠ .deleteBegin ∧ t ≠ .deleteEnd) :
+    SubsAll P (sys.subTurn sid t).1 := by
   unfold Sys.subTurn
   split
   · exact h
   · rename_i e he
-    exact SubsOk_setSubState h sid _ (turn_ok (turn_ok (h e (findSubById_mem he)) t ht) _ (by simp))
+    exact SubsAll_setSubState h sid _ (hP.step _ _ (hP.step _ _ (h e (findSubById_mem he)) ht.1 ht.2) (by simp) (by simp))
 
-theorem SubsOk_subExpire {sys : Sys} (h : SubsOk sys) (sid : Nat) : SubsOk (sys.subExpire sid) := by
+theorem SubsAll_subExpire {sys : Sys} (h : SubsAll P sys) (sid : Nat) : SubsAll P (sys.subExpire sid) := by
   unfold Sys.subExpire
   split
   · exact h
   · rename_i e he
-    exact SubsOk_setSubState h sid _ (turn_ok (h e (findSubById_mem he)) _ (by simp))
+    exact SubsAll_setSubState h sid _ (hP.step _ _ (h e (findSubById_mem he)) (by simp) (by simp))
 
-theorem SubsOk_drainStream (k sid : Nat) : ∀ (fuel : Nat) (sys : Sys), SubsOk sys → SubsOk (drainStream k sid fuel sys) := by
+theorem SubsAll_drainStream (k sid : Nat) : ∀ (fuel : Nat) (sys : Sys), SubsAll P sys → SubsAll P (drainStream k sid fuel sys) := by
   intro fuel
   induction fuel with
   | zero => intro sys h; exact h
@@ -62,39 +70,39 @@ theorem SubsOk_drainStream (k sid : Nat) : ∀ (fuel : Nat) (sys : Sys), SubsOk 
           · exact h
           · rename_i s _ _ _ _ _ _
             apply ih
-            have h1 : SubsOk (sys.subTurn sid (.pull s.max16 sys.clock)).1 := SubsOk_subTurn h sid _ (by simp)
+            have h1 : SubsAll P (sys.subTurn sid (.pull s.max16 sys.clock)).1 := SubsAll_subTurn hP h sid _ (by simp)
             exact fun e he => h1 e he
 
-theorem SubsOk_drainSub {sys : Sys} (h : SubsOk sys) (sid : Nat) : SubsOk (sys.drainSub sid) := by
+theorem SubsAll_drainSub {sys : Sys} (h : SubsAll P sys) (sid : Nat) : SubsAll P (sys.drainSub sid) := by
   unfold Sys.drainSub
   generalize (sys.streams.filter (fun s => s.sid == sid && !s.ended)) = l
   induction l generalizing sys with
   | nil => exact h
-  | cons s rest ih => simp only [List.foldl_cons]; exact ih (SubsOk_drainStream _ _ _ _ h)
+  | cons s rest ih => simp only [List.foldl_cons]; exact ih (SubsAll_drainStream hP _ _ _ _ h)
 
-theorem SubsOk_subReq {sys : Sys} (h : SubsOk sys) (sid : Nat) (t : SubTurn) (ht : t ≠ .deleteBegin) :
-    SubsOk (sys.subReq sid t).1 := by
-  simp only [Sys.subReq]; exact SubsOk_drainSub (SubsOk_subTurn h sid t ht) sid
+theorem SubsAll_subReq {sys : Sys} (h : SubsAll P sys) (sid : Nat) (t : SubTurn) (ht : t ≠ .deleteBegin ∧ t ≠ .deleteEnd) :
+    SubsAll P (sys.subReq sid t).1 := by
+  simp only [Sys.subReq]; exact SubsAll_drainSub hP (SubsAll_subTurn hP h sid t ht) sid
 
-theorem SubsOk_touch {sys : Sys} (h : SubsOk sys) (sid : Nat) : SubsOk (sys.touch sid) := by
-  simp only [Sys.touch]; exact SubsOk_drainSub (SubsOk_subExpire h sid) sid
+theorem SubsAll_touch {sys : Sys} (h : SubsAll P sys) (sid : Nat) : SubsAll P (sys.touch sid) := by
+  simp only [Sys.touch]; exact SubsAll_drainSub hP (SubsAll_subExpire hP h sid) sid
 
-theorem SubsOk_touchAll : ∀ (l : List Nat) {sys : Sys}, SubsOk sys → SubsOk (sys.touchAll l) := by
+theorem SubsAll_touchAll : ∀ (l : List Nat) {sys : Sys}, SubsAll P sys → SubsAll P (sys.touchAll l) := by
   intro l
   induction l with
   | nil => intro sys h; exact h
-  | cons x rest ih => intro sys h; simp only [Sys.touchAll]; exact ih (SubsOk_touch h x)
+  | cons x rest ih => intro sys h; simp only [Sys.touchAll]; exact ih (SubsAll_touch hP h x)
 
-theorem SubsOk_postAll (ms : List Msg) : ∀ (l : List (Name × Nat)) {sys : Sys}, SubsOk sys → SubsOk (sys.postAll ms l) := by
+theorem SubsAll_postAll (ms : List Msg) : ∀ (l : List (Name × Nat)) {sys : Sys}, SubsAll P sys → SubsAll P (sys.postAll ms l) := by
   intro l
   induction l with
   | nil => intro sys h; exact h
   | cons x rest ih =>
     intro sys h; obtain ⟨n, sid⟩ := x
     simp only [Sys.postAll]
-    exact ih (SubsOk_drainSub (SubsOk_subTurn h sid _ (by simp)) sid)
+    exact ih (SubsAll_drainSub hP (SubsAll_subTurn hP h sid _ (by simp)) sid)
 
-theorem SubsOk_advanceTo (frac : Nat) : ∀ (fuel target : Nat) {sys : Sys}, SubsOk sys → SubsOk (Sys.advanceTo frac fuel target sys) := by
+theorem SubsAll_advanceTo (frac : Nat) : ∀ (fuel target : Nat) {sys : Sys}, SubsAll P sys → SubsAll P (Sys.advanceTo frac fuel target sys) := by
   intro fuel
   induction fuel with
   | zero => intro target sys h; exact h
@@ -103,19 +111,27 @@ theorem SubsOk_advanceTo (frac : Nat) : ∀ (fuel target : Nat) {sys : Sys}, Sub
     unfold Sys.advanceTo
     split
     · split
-      · exact ih _ (SubsOk_drainSub (SubsOk_subExpire (SubsOk_clock h _) _) _)
+      · exact ih _ (SubsAll_drainSub hP (SubsAll_subExpire hP (SubsAll_clock h _) _) _)
       · exact h
     · exact h
+
+end
 
 end Deltio
 
 namespace Deltio
 
-theorem SubsOk_init : SubsOk Sys.init := by intro e he; simp [Sys.init] at he
+section
+variable {P : SubState → Prop} (hP : TurnStable P)
+include hP
 
-theorem SubsOk_fst {β : Type} {a : Sys} {r : β} (h : SubsOk a) : SubsOk (a, r).fst := h
+omit hP in
+theorem SubsAll_init : SubsAll P Sys.init := by intro e he; simp [Sys.init] at he
 
-theorem SubsOk_rpc {sys : Sys} (h : SubsOk sys) (r : Req) : SubsOk (sys.rpc r).1 := by
+omit hP in
+theorem SubsAll_fst {β : Type} {a : Sys} {r : β} (h : SubsAll P a) : SubsAll P (a, r).fst := h
+
+theorem SubsAll_rpc {sys : Sys} (h : SubsAll P sys) (r : Req) : SubsAll P (sys.rpc r).1 := by
   cases r with
   | createTopic raw => simp only [Sys.rpc]; (repeat' split) <;> exact h
   | getTopic raw => simp only [Sys.rpc]; (repeat' split) <;> exact h
@@ -123,76 +139,129 @@ theorem SubsOk_rpc {sys : Sys} (h : SubsOk sys) (r : Req) : SubsOk (sys.rpc r).1
   | listTopics p s t => simp only [Sys.rpc]; (repeat' split) <;> exact h
   | listTopicSubs p s t => simp only [Sys.rpc]; (repeat' split) <;> exact h
   | unimplemented => exact h
-  | getSub raw => simp only [Sys.rpc]; (repeat' split) <;> first | exact SubsOk_fst h | exact SubsOk_fst (SubsOk_touch h _)
-  | listSubs p s t => simp only [Sys.rpc]; (repeat' split) <;> first | exact SubsOk_fst h | exact SubsOk_fst (SubsOk_touchAll _ h)
-  | ack raw ids => simp only [Sys.rpc]; (repeat' split) <;> first | exact SubsOk_fst h | exact SubsOk_fst (SubsOk_subReq h _ _ (by simp))
-  | modAck raw secs ids => simp only [Sys.rpc]; (repeat' split) <;> first | exact SubsOk_fst h | exact SubsOk_fst (SubsOk_drainSub (SubsOk_subTurn h _ _ (by simp)) _)
+  | getSub raw => simp only [Sys.rpc]; (repeat' split) <;> first | exact SubsAll_fst h | exact SubsAll_fst (SubsAll_touch hP h _)
+  | listSubs p s t => simp only [Sys.rpc]; (repeat' split) <;> first | exact SubsAll_fst h | exact SubsAll_fst (SubsAll_touchAll hP _ h)
+  | ack raw ids => simp only [Sys.rpc]; (repeat' split) <;> first | exact SubsAll_fst h | exact SubsAll_fst (SubsAll_subReq hP h _ _ (by simp))
+  | modAck raw secs ids => simp only [Sys.rpc]; (repeat' split) <;> first | exact SubsAll_fst h | exact SubsAll_fst (SubsAll_drainSub hP (SubsAll_subTurn hP h _ _ (by simp)) _)
   | pull raw mx ri =>
     simp only [Sys.rpc]
     (repeat' split) <;> first
-      | exact SubsOk_fst h
-      | exact SubsOk_fst (SubsOk_drainSub (SubsOk_subTurn h _ _ (by simp)) _)
-      | exact SubsOk_fst (SubsOk_subTurn (SubsOk_subTurn h _ _ (by simp)) _ _ (by simp))
-      | exact SubsOk_fst (SubsOk_subTurn (SubsOk_advanceTo _ _ _ (SubsOk_subTurn h _ _ (by simp))) _ _ (by simp))
-      | exact SubsOk_fst (SubsOk_advanceTo _ _ _ (SubsOk_subTurn h _ _ (by simp)))
+      | exact SubsAll_fst h
+      | exact SubsAll_fst (SubsAll_drainSub hP (SubsAll_subTurn hP h _ _ (by simp)) _)
+      | exact SubsAll_fst (SubsAll_subTurn hP (SubsAll_subTurn hP h _ _ (by simp)) _ _ (by simp))
+      | exact SubsAll_fst (SubsAll_subTurn hP (SubsAll_advanceTo hP _ _ _ (SubsAll_subTurn hP h _ _ (by simp))) _ _ (by simp))
+      | exact SubsAll_fst (SubsAll_advanceTo hP _ _ _ (SubsAll_subTurn hP h _ _ (by simp)))
   | publish raw ms =>
-    simp only [Sys.rpc]; (repeat' split) <;> first | exact SubsOk_fst h | exact SubsOk_fst (SubsOk_postAll _ _ h)
+    simp only [Sys.rpc]; (repeat' split) <;> first | exact SubsAll_fst h | exact SubsAll_fst (SubsAll_postAll hP _ _ h)
   | deleteSub raw =>
-    simp only [Sys.rpc]; (repeat' split) <;> first | exact SubsOk_fst h | skip
+    simp only [Sys.rpc]; (repeat' split) <;> first | exact SubsAll_fst h | skip
     intro e he
     simp only [List.mem_filter] at he
     exact h e he.1
   | createSub rawN rawT ack push =>
-    simp only [Sys.rpc]; (repeat' split) <;> first | exact SubsOk_fst h | skip
+    simp only [Sys.rpc]; (repeat' split) <;> first | exact SubsAll_fst h | skip
     all_goals
       intro e he
       simp only [List.mem_append, List.mem_singleton] at he
       rcases he with he | rfl
       · exact h e he
-      · exact ⟨SubInv_init _, rfl⟩
+      · exact hP.init _
 
-theorem SubsOk_apply {sys : Sys} (h : SubsOk sys) (op : SysOp) : SubsOk (sys.apply op) := by
+theorem SubsAll_apply {sys : Sys} (h : SubsAll P sys) (op : SysOp) : SubsAll P (sys.apply op) := by
   cases op with
-  | rpc r => exact SubsOk_rpc h r
+  | rpc r => exact SubsAll_rpc hP h r
   | advance d =>
     simp only [Sys.apply, Sys.advance]
     split
     · exact h
-    · exact SubsOk_advanceTo _ _ _ (SubsOk_clock h _)
+    · exact SubsAll_advanceTo hP _ _ _ (SubsAll_clock h _)
   | streamOpen k raw mm =>
     simp only [Sys.apply, Sys.streamOpen]
     (repeat' split)
     all_goals first
-      | exact SubsOk_fst h
-      | (apply SubsOk_fst; apply SubsOk_drainSub
+      | exact SubsAll_fst h
+      | (apply SubsAll_fst; apply SubsAll_drainSub hP
          first
-           | exact SubsOk_subTurn (SubsOk_streams h _) _ _ (by simp)
-           | (have h1 := SubsOk_subTurn (SubsOk_streams h (List.filter (fun x => x.k != k) sys.streams ++ [{ k := k, sid := _, max16 := _, outbox := [], ended := false }])) _ (SubTurn.pull _ sys.clock) (by simp)
+           | exact SubsAll_subTurn hP (SubsAll_streams h _) _ _ (by simp)
+           | (have h1 := SubsAll_subTurn hP (SubsAll_streams h (List.filter (fun x => x.k != k) sys.streams ++ [{ k := k, sid := _, max16 := _, outbox := [], ended := false }])) _ (SubTurn.pull _ sys.clock) (by simp)
               exact fun e he => h1 e he))
   | streamSend k c =>
     simp only [Sys.apply, Sys.streamSend]
     (repeat' split) <;> first
       | exact h
-      | exact SubsOk_streams h _
-      | exact SubsOk_subReq h _ _ (by simp)
-      | exact SubsOk_subReq (SubsOk_subReq h _ _ (by simp)) _ _ (by simp)
+      | exact SubsAll_streams h _
+      | exact SubsAll_subReq hP h _ _ (by simp)
+      | exact SubsAll_subReq hP (SubsAll_subReq hP h _ _ (by simp)) _ _ (by simp)
   | streamRead k =>
     simp only [Sys.apply, Sys.streamRead]
     split
     · exact h
-    · exact SubsOk_streams h _
-  | streamCloseReq k => exact SubsOk_streams h _
-  | streamDrop k => exact SubsOk_streams h _
+    · exact SubsAll_streams h _
+  | streamCloseReq k => exact SubsAll_streams h _
+  | streamDrop k => exact SubsAll_streams h _
 
 /-- In every state reached from the empty system by any sequence of requests, stream operations
     and time advances, every registered subscription satisfies the actor invariant (its tracker's
     two structures agree, ack ids are below the counter) and is not marked deleted. -/
-theorem SubsOk_all (ops : List SysOp) : SubsOk (Sys.init.execOps ops) := by
-  have : ∀ (ops : List SysOp) (sys : Sys), SubsOk sys → SubsOk (sys.execOps ops) := by
+theorem SubsAll_all (ops : List SysOp) : SubsAll P (Sys.init.execOps ops) := by
+  have : ∀ (ops : List SysOp) (sys : Sys), SubsAll P sys → SubsAll P (sys.execOps ops) := by
     intro ops
     induction ops with
     | nil => intro sys h; exact h
-    | cons o rest ih => intro sys h; exact ih _ (SubsOk_apply h o)
-  exact this ops _ SubsOk_init
+    | cons o rest ih => intro sys h; exact ih _ (SubsAll_apply hP h o)
+  exact this ops _ SubsAll_init
+
+end
+
+end Deltio
+
+namespace Deltio
+
+/-! ### Instances -/
+
+theorem okStable : TurnStable (fun st => SubInv st ∧ st.deleted = false) :=
+  ⟨fun dl => ⟨SubInv_init dl, rfl⟩,
+   fun _ t h ht _ => ⟨SubInv_turn h.1 t, by rw [turn_deleted t ht]; exact h.2⟩⟩
+
+def SubsOk (sys : Sys) : Prop := SubsAll (fun st => SubInv st ∧ st.deleted = false) sys
+
+theorem SubsOk_subTurn {sys : Sys} (h : SubsOk sys) (sid : Nat) (t : SubTurn) (ht : t ≠ .deleteBegin ∧ t ≠ .deleteEnd) :
+    SubsOk (sys.subTurn sid t).1 := SubsAll_subTurn okStable h sid t ht
+theorem SubsOk_subExpire {sys : Sys} (h : SubsOk sys) (sid : Nat) : SubsOk (sys.subExpire sid) := SubsAll_subExpire okStable h sid
+theorem SubsOk_drainSub {sys : Sys} (h : SubsOk sys) (sid : Nat) : SubsOk (sys.drainSub sid) := SubsAll_drainSub okStable h sid
+theorem SubsOk_clock {sys : Sys} (h : SubsOk sys) (c : Nat) : SubsOk { sys with clock := c } := h
+theorem SubsOk_advanceTo (frac fuel target : Nat) {sys : Sys} (h : SubsOk sys) : SubsOk (Sys.advanceTo frac fuel target sys) :=
+  SubsAll_advanceTo okStable frac fuel target h
+theorem SubsOk_rpc {sys : Sys} (h : SubsOk sys) (r : Req) : SubsOk (sys.rpc r).1 := SubsAll_rpc okStable h r
+theorem SubsOk_apply {sys : Sys} (h : SubsOk sys) (op : SysOp) : SubsOk (sys.apply op) := SubsAll_apply okStable h op
+
+/-- In every state reached from the empty system by any sequence of requests, stream operations
+    and time advances, every registered subscription satisfies the actor invariant (its tracker's
+    two structures agree, ack ids are below the counter) and is not marked deleted. -/
+theorem SubsOk_all (ops : List SysOp) : SubsOk (Sys.init.execOps ops) := SubsAll_all okStable ops
+
+/-- The actor states that arise from a fresh subscription by some sequence of non-deleting turns. -/
+def IsTurnRun (st : SubState) : Prop := ∃ dl ts, NoDelete ts ∧ st = (SubState.init dl).exec ts
+
+theorem runStable : TurnStable IsTurnRun := by
+  constructor
+  · intro dl; exact ⟨dl, [], (by intro t ht; cases ht), rfl⟩
+  · intro s t ⟨dl, ts, hn, hs⟩ h1 h2
+    refine ⟨dl, ts ++ [t], ?_, ?_⟩
+    · intro x hx
+      simp only [List.mem_append, List.mem_singleton] at hx
+      rcases hx with hx | rfl
+      · exact hn x hx
+      · exact ⟨h1, h2⟩
+    · rw [exec_append, ← hs]; rfl
+
+/-- **Bridge from the system to the actor theorems.** After ANY history of requests, stream
+    operations and time advances, the state of every registered subscription is the result of some
+    sequence of non-deleting actor turns from a fresh subscription. Every L1 theorem — they
+    quantify over all such turn sequences (C01 conservation, C02 finality, C03 leases, C04 deadlines,
+    C05 modifications, C08 order) — therefore holds of every subscription in every reachable
+    state of the system model, concurrent consumers or not. -/
+theorem Sys_subs_are_turn_runs (ops : List SysOp) : ∀ e ∈ (Sys.init.execOps ops).subs, IsTurnRun e.st :=
+  SubsAll_all runStable ops
 
 end Deltio
